@@ -11,7 +11,7 @@ META = {
              'the physical file, so foreign content is recognisable; signature = (#frames, #logical files, set-name assignment '
              'class, interleaved?); non-trivial when there are >= 2 frames or >= 2 logical files'),
     'required_obs': {'quick': ['multi-lf-written', 'multi-frame-written', 'frames-different-rows', 'interleaved',
-                               'shared-set-names-tried', 'partially-shared-tried', 'shared-after-rejected-add', 'lf-order-checked', 'rows-compared', 'runs-with-equal-channel-names',
+                               'shared-set-names-tried', 'partially-shared-tried', 'shared-after-rejected-add', 'lf-order-checked', 'rows-compared', 'runs-with-equal-channel-names', 'no-format-data-in-multi-lf',
                                'object-compared']},
     'assumptions': ['a configuration whose set names collide across logical files may be rejected at add_* or at write time'],
 }
@@ -198,6 +198,16 @@ def run_case(case):
             bump('shared-set-names-tried')
             if mode in ('one-type', 'some-types'):
                 bump('partially-shared-tried')
+        # no-format data records for the no-format objects of some of the logical files (none for the others)
+        nf_added = 0
+        for i_, o_ in list(enumerate(sp['ops'])):
+            if o_['op'] == 'no_format' and r.random() < 0.7:
+                for j_ in range(r.choice([1, 2])):
+                    op_ = gen.nf_data_op(i_, gen.payload_bytes(r, r.choice([0, 3, 20, 200]), i_ * 7 + j_), lf=o_.get('lf', 0))
+                    sp['ops'].append(op_)
+                    nf_added += 1
+        if nf_added:
+            bump('no-format-data-in-multi-lf')
         if r.random() < 0.6:
             sp = interleave(sp, r)
             inter = True
